@@ -40,6 +40,16 @@ CHECKS = {
    text="Runtime monitoring of the real CLI on 80 (thorough 800) projects x 2 versions with validators drawn from every rule either converter understands (22 rule names, applicable to the target type or not) on fields, parameters, bodies and form fields, plus security/deprecation combinations; paths, verbs, operationIds, tags, parameters, bodies, response codes, $ref targets, security and component schemas incl. numeric/length bounds and enum sets are compared after dialect translation. Exploration only.",
    note="At most one rule per bound is generated (3.0 has one maximum/minimum slot). Two known findings (3.0-only default response, zero-valued length bounds dropped by 3.1) are cause-attested in known_findings.json.",
    ref="DESIGN.md §5 C11"),
+ "C18": dict(
+   technique="diagnostic-position monitor: every diagnostic of the real in-process Validate() on perturbed projects is checked against the renderer's position map (file, 0-based rune range, entity extent, code/severity/anchor table) and the Run() error text is scanned for repeats",
+   text="Runtime monitoring on 108 (thorough 1080) perturbed projects (27 operators of Appendix H) rendered at random vertical offsets with multibyte noise above and inside comments, several controllers per file and several files: ~250 diagnostics per quick run over 17 codes. Exact anchor ranges are required for the 20 operators with a documented code (value ranges, {param} sub-ranges, whole-line ranges, parameter ranges). Exploration only.",
+   note="Positions are the renderer's own bookkeeping (0-based lines, rune columns). One known finding (entity block repeated per error diagnostic, pinned by test/diagnostics) is cause-attested.",
+   ref="DESIGN.md §5 C18, Appendix H"),
+ "C19": dict(
+   technique="history monitor on a long-lived session: call histories over GenerateGraph/Validate/GenerateIntermediate/Run on ONE GleecePipeline, every step's canonical metadata, spec bytes, diagnostics and graph census compared with the first pass and with a brand-new pipeline (iteration order pinned via hook H1)",
+   text="Runtime monitoring in child processes (one per project x history): 30 (thorough 250) 'fullspec' projects x 3 (thorough 6) histories such as GVIGVIGVIF, GGVIIF, RRRF, FRGIF; validation-failing projects get G/V-only histories. ~700 steps per quick run. Detects cache-served answers that differ from fresh ones, graph growth across passes, serial/identifier drift. Exploration over histories.",
+   note="Order-insensitive canonical form of GleeceFlattenedMetadata; iteration orders pinned to canonical through VERIF_ORDER=canon so that C13's order dependence cannot masquerade as a cache defect.",
+   ref="DESIGN.md §5 C19"),
  "C15": dict(
    technique="reference-model monitor: brute-force overlap oracle over every route list (bounded-exhaustive + random, permutation re-runs) observing paths.FindConflicts in-process",
    text="Runtime monitoring of the real FindConflicts: every ordered list of <=3 (thorough <=4) entries over 42 route entries plus thousands of large duplicate-heavy random lists are executed and each reported conflict / each unflagged entry is judged by a 12-line overlap model transcribed from the statement; entry identity is tracked by pointer so duplicates are distinguishable. Exploration, not proof: the verdict covers the enumerated and sampled lists only.",
